@@ -74,6 +74,9 @@ func SelfTest() error {
 		{"POST / HTTP/1.1\r\n" + h + "Content-Length: 9223372036854775808\r\n\r\nhello", CLTooLarge, false, 0, "", "", "", 0, ""},
 		{"POST / HTTP/1.1\r\n" + h + "Content-Length: 5\r\nContent-Length: 6\r\n\r\nhello!", CLConflicting, false, 0, "", "", "", 0, ""},
 		{"POST / HTTP/1.1\r\n" + h + "Content-Length: 5, 6\r\n\r\nhello!", CLConflicting, false, 0, "", "", "", 0, ""},
+		{"POST / HTTP/1.1\r\n" + h + "Content-Length: 5\r\nContent-Length: +5\r\n\r\nhello", CLConflicting, false, 0, "", "", "", 0, ""},
+		{"POST / HTTP/1.1\r\n" + h + "Content-Length: +5\r\nContent-Length: +5\r\n\r\nhello", CLInvalid, false, 0, "", "", "", 0, ""},
+		{"POST / HTTP/1.1\r\n" + h + "Content-Length: 5\r\nContent-Length: 05\r\n\r\nhello", CLDuplicateEqual, false, 0, "", "", "", 0, ""},
 		{"POST / HTTP/1.1\r\n" + h + "Content-Length: 5\r\ncontent-length: 5\r\n\r\nhello", CLDuplicateEqual, false, 0, "", "", "", 0, ""},
 		{"POST / HTTP/1.1\r\n" + h + "Content-Length: 5, 5\r\n\r\nhello", CLDuplicateEqual, false, 0, "", "", "", 0, ""},
 		// Transfer-Encoding
